@@ -194,6 +194,66 @@ Section Calls.
     - intros c a b V Ha Hb. destruct (F a b V Ha Hb) as (V2 & A2 & B2 & C). apply REL_err; auto.
   Qed.
 
+
+  (** iterating modifiers: related operands give related iterations *)
+  Lemma REL_iter_loop h h' (body body' : rt -> res) argsof fa fo :
+    (forall a b, vsim a b -> hid a = h -> hid b = h' -> REL h h' (body a) (body' b)) ->
+    forall k i cur cur' acc, vsim cur cur' -> hid cur = h -> hid cur' = h' ->
+    REL h h' (fst (iter_loop body argsof fa fo k i cur acc)) (fst (iter_loop body' argsof fa fo k i cur' acc)) /\
+    (forall x, fst (iter_loop body argsof fa fo k i cur acc) = Ok x ->
+       snd (iter_loop body argsof fa fo k i cur acc) = snd (iter_loop body' argsof fa fo k i cur' acc)).
+  Proof.
+    intros Hb. induction k as [|k IHk]; intros i cur cur' acc V Ha Hb'; cbn [iter_loop].
+    - split; [apply REL_ok; auto | reflexivity].
+    - destruct (argsof i acc) as [l|]; cbn [fst snd].
+      2:{ split; [apply REL_err; auto | discriminate]. }
+      destruct (negb (Nat.eqb (length l) fa)); cbn [fst snd]; [split; [exact I | discriminate]|].
+      assert (V2 : vsim (set_stk cur (l ++ stk cur)) (set_stk cur' (l ++ stk cur'))).
+      { destruct V as (E1 & E2 & E3 & E4). repeat split; cbn [set_stk stk und fills fbs]; auto; try congruence. }
+      specialize (Hb _ _ V2 Ha Hb').
+      destruct (body (set_stk cur (l ++ stk cur))) as [a|c a| |]; cbn [fst snd] in *.
+      + destruct Hb as (Ha2 & b & -> & Vab & Hb2).
+        pose proof Vab as (E1 & E2 & E3 & E4).
+        unfold need. rewrite <- E1.
+        destruct (negb (fo <=? length (stk a))); cbn [fst snd].
+        * split; [apply REL_err; auto | discriminate].
+        * apply IHk; auto.
+          repeat split; cbn [set_stk stk und fills fbs]; auto; try congruence.
+      + destruct Hb as (Ha2 & b & -> & Vab & Hb2). cbn [fst snd].
+        split; [apply REL_err; auto | discriminate].
+      + split; [exact I | discriminate].
+      + split; [exact I | discriminate].
+  Qed.
+
+  Lemma REL_iter_exec (body body' : rt -> res) tag na no fa fo s s' :
+    vsim s s' ->
+    (forall a b, vsim a b -> hid a = hid s -> hid b = hid s' -> REL (hid s) (hid s') (body a) (body' b)) ->
+    REL (hid s) (hid s') (iter_exec pknown psem body tag na no fa fo s)
+                         (iter_exec pknown psem body' tag na no fa fo s').
+  Proof.
+    intros V Hb. pose proof (fillctx_vsim _ _ V) as Efc. pose proof V as (E1 & E2 & E3 & E4).
+    unfold iter_exec, need. rewrite Efc, <- E1.
+    destruct (negb (na <=? length (stk s))); [apply REL_err; auto|].
+    destruct (negb (pknown ITER_N ([SInt tag; SInt (Z.of_nat fa); SInt (Z.of_nat fo)] ++ firstn na (stk s)))); [exact I|].
+    destruct (psem ITER_N (fillctx s) ([SInt tag; SInt (Z.of_nat fa); SInt (Z.of_nat fo)] ++ firstn na (stk s))) as [[|[n|] [|]]|]; try exact I.
+    - match goal with |- REL _ _ (let (_, _) := iter_loop _ ?ao _ _ ?k ?i ?c ?acc in _) _ =>
+        destruct (REL_iter_loop (hid s) (hid s') body body' ao fa fo Hb k i c (set_stk s' (skipn na (stk s))) acc) as [R A]
+      end; try reflexivity.
+      { repeat split; cbn [set_stk stk und fills fbs]; auto. }
+      destruct (iter_loop body _ fa fo (Z.to_nat n) 0%Z (set_stk s (skipn na (stk s))) []) as [r acc].
+      destruct (iter_loop body' _ fa fo (Z.to_nat n) 0%Z (set_stk s' (skipn na (stk s))) []) as [r' acc'].
+      cbn [fst snd] in *.
+      destruct r as [a|c a| |]; cbn [REL] in R |- *; auto.
+      + destruct R as (Ha & b & -> & Vab & Hb2). rewrite <- (A a eq_refl).
+        pose proof Vab as (F1 & F2 & F3 & F4).
+        destruct (psem ITER_OUT (fillctx s) _) as [outs|].
+        * destruct (Nat.eqb (length outs) no); [|exact I].
+          apply REL_ok; auto. repeat split; cbn [set_stk stk und fills fbs]; auto; try congruence.
+        * apply REL_err; auto.
+      + destruct R as (Ha & b & -> & Vab & Hb2). apply REL_err; auto.
+    - apply REL_err; auto. repeat split; cbn [set_stk stk und fills fbs]; auto.
+  Qed.
+
   Ltac fin_ok :=
     first [ exact I
           | apply REL_ok; [repeat split; cbn [stk und fills fbs depth]; auto; congruence | auto; try reflexivity; try assumption | auto; try reflexivity; try assumption]
@@ -291,6 +351,13 @@ Section Calls.
     - (* Mod *)
       destruct m; cbn [Exec.exec];
         destruct args as [|[sg1 f1] [|[sg2 f2] [|[sg3 f3] rest]]]; cbn [map fst snd sets_fill]; try exact I.
+      all: try (match goal with |- REL _ _ (match iter_ao ?mk ?sg with _ => _ end) _ =>
+                  destruct (iter_ao mk sg) as [[na no]|]; [|exact I] end;
+                apply REL_iter_exec; auto; intros a b Vab Ha Hb;
+                apply (IH_use _ _ IH); auto;
+                intros Hv; cbn [sets_fill] in Hv; rewrite ?orb_false_r in Hv;
+                eapply novis_hid; [exact Ha | auto]).
+      all: try (apply REL_iter_exec; auto; intros; exact I).
       all: try (norm E1 E2; rewrite ?Efc; auto_rel IH Hn; fail).
       (* fill *)
       destruct (so sg1 =? 0); [exact I|]. auto_rel IH Hn.
